@@ -1,10 +1,16 @@
 import FimVerif.Drivers.Proto
 import FimVerif.Model.Diff
 import FimVerif.Proofs.Lemmas.C17Script
+import FimVerif.Generated.DiffCfg
 open Lean FimVerif.Proto FimVerif.Diff
 
-/-! Driver for C17: `["node"|"svc"|"iface", A, B]` → the model's `diff A B` as
-`["ok", null | {slot: [...]}]` / `["err", kind]`.  Property values arrive as canonical strings or null. -/
+/-! Driver for C17: `["node"|"svc"|"iface", A, B]` → the table-driven model's `diff A B` (`nodeDiffC` … of `Model/Diff.lean` on
+the table `Generated/DiffCfg.lean` extracted from the source in this run) as `["ok", null | {slot: [...]}]` / `["err", kind]`.
+Property values arrive as canonical strings or null; components and interfaces arrive with the *name* of their type, which is
+resolved here against the kinds the extracted table says the methods descend below.  Flags go out as the integer the extracted
+member values give.  `["cfg"]` → what the harness needs to know of the table. -/
+
+def cfg : Cfg := FimVerif.Gen.DiffCfg.cfg
 
 def optStr (j : Json) : Option (Option String) :=
   match j with
@@ -35,7 +41,8 @@ def parseLeaf (j : Json) : Option (Leaf String) := do
 def parseIface (j : Json) : Option (Iface String) := do
   let n ← (← field j "n").getStr?.toOption
   let p ← parseProps (← field j "p")
-  let d ← (← field j "d").getBool?.toOption
+  let t ← (← field j "t").getStr?.toOption
+  let d := (cfg.svc.recKinds .ifs).contains t
   let subs ← optList (← field j "subs") parseLeaf
   pure { name := n, props := p, dedicated := d, subs := subs }
 
@@ -48,7 +55,8 @@ def parseSvc (j : Json) : Option (Svc String) := do
 def parseComp (j : Json) : Option (Comp String) := do
   let n ← (← field j "n").getStr?.toOption
   let p ← parseProps (← field j "p")
-  let s ← (← field j "s").getBool?.toOption
+  let t ← (← field j "t").getStr?.toOption
+  let s := (cfg.node.recKinds .comps).contains t
   let svcs ← optList (← field j "svcs") parseSvc
   pure { name := n, props := p, smart := s, svcs := svcs }
 
@@ -60,15 +68,15 @@ def parseNode (j : Json) : Option (Node String) := do
   pure { name := n, props := p, comps := comps, svcs := svcs }
 
 def modJson (l : List (String × Flags)) : Json :=
-  Json.arr (l.map fun (p : String × Flags) => Json.arr #[Json.str p.1, Json.num (JsonNumber.fromNat p.2.toNat)]).toArray
+  Json.arr (l.map fun (p : String × Flags) => Json.arr #[Json.str p.1, Json.num (JsonNumber.fromNat (encodeC cfg.flagVal p.2))]).toArray
 
 def tdiffJson (d : Option TDiff) : Json :=
   match d with
   | none => Json.null
   | some d => Json.mkObj [
-      ("added.nodes", ofStrs []), ("added.components", ofStrs d.addedComps), ("added.services", ofStrs d.addedSvcs),
+      ("added.nodes", ofStrs d.addedNodes), ("added.components", ofStrs d.addedComps), ("added.services", ofStrs d.addedSvcs),
       ("added.interfaces", ofStrs d.addedIfs),
-      ("removed.nodes", ofStrs []), ("removed.components", ofStrs d.removedComps), ("removed.services", ofStrs d.removedSvcs),
+      ("removed.nodes", ofStrs d.removedNodes), ("removed.components", ofStrs d.removedComps), ("removed.services", ofStrs d.removedSvcs),
       ("removed.interfaces", ofStrs d.removedIfs),
       ("modified.nodes", modJson d.modNodes), ("modified.components", modJson d.modComps),
       ("modified.services", modJson d.modSvcs), ("modified.interfaces", modJson d.modIfs)]
@@ -137,24 +145,35 @@ def handleScript (op kind : String) (a sc : Json) : Json :=
     | _, _ => err "bad-args"
   else err "bad-op"
 
+def flagName : FlagK → String
+  | .labels => "LABELS"
+  | .caps => "CAPACITIES"
+  | .ud => "USER_DATA"
+  | .sub => "SUB_INTERFACES"
+
+def cfgJson : Json :=
+  Json.mkObj [("compKinds", ofStrs (cfg.node.recKinds .comps)), ("ifaceKinds", ofStrs (cfg.svc.recKinds .ifs)),
+    ("flagVal", Json.mkObj (cfg.flagVal.map fun e => (flagName e.1, Json.num (JsonNumber.fromNat e.2))))]
+
 def handle (j : Json) : Json :=
   match j with
+  | .arr #[.str "cfg"] => ok cfgJson
   | .arr #[.str op, .str kind, a, sc] => handleScript op kind a sc
   | .arr #[.str kind, a, b] =>
     if kind == "node" then
       match parseNode a, parseNode b with
       | some x, some y =>
-        match nodeDiff x y with
+        match nodeDiffC cfg x y with
         | .ok d => ok (tdiffJson d)
         | .error e => err e
       | _, _ => err "bad-args"
     else if kind == "svc" then
       match parseSvc a, parseSvc b with
-      | some x, some y => ok (tdiffJson (svcDiff x y))
+      | some x, some y => ok (tdiffJson (svcDiffC cfg x y))
       | _, _ => err "bad-args"
     else if kind == "iface" then
       match parseIface a, parseIface b with
-      | some x, some y => ok (tdiffJson (ifaceDiff x y))
+      | some x, some y => ok (tdiffJson (ifaceDiffC cfg x y))
       | _, _ => err "bad-args"
     else err "bad-op"
   | _ => err "bad-request"
